@@ -81,7 +81,7 @@ PROPS = {
 
 PROPS["C09"] = {
     "coq": "theories/Props/C09.v",
-    "theorems": ["C09_subframe_le_verbatim", "C09_frame_body_le_verbatim", "C09_frame_bits_bound"],
+    "theorems": ["C09_subframe_le_verbatim", "C09_frame_body_le_verbatim", "C09_frame_bits_bound", "C09_frame_bytes_le_verbatim"],
     "streams": "ENC",
     "rule": "ENC",
     "oracle": lambda pid, res, driver: enc_oracle(pid, res, driver),
@@ -269,7 +269,7 @@ PROPS["C02"] = {
 }
 PROPS["C03"] = {
     "coq": "theories/Props/C03.v",
-    "theorems": ["C03_streaminfo_true", "C03_md5_split_independent"],
+    "theorems": ["C03_streaminfo_true", "C03_md5_split_independent", "C03_decoded_streaminfo_true"],
     "streams": "ENC+DLV", "rule": "ENC+DLV",
     "oracle": lambda pid, res, driver: enc_oracle(pid, res, driver) + enc_oracle(pid, res, driver, "DLV"),
     "assumptions": ["MD5 is an oracle (any function of the byte string); the md-5 crate's chunked update is assumed to equal one update "
@@ -277,7 +277,7 @@ PROPS["C03"] = {
 }
 PROPS["C04"] = {
     "coq": "theories/Props/C04.v",
-    "theorems": ["C04_bounds_exact"],
+    "theorems": ["C04_bounds_exact", "C04_bounds_match_decoded_frames"],
     "streams": "ENC+DLV", "rule": "ENC+DLV",
     "oracle": lambda pid, res, driver: enc_oracle(pid, res, driver) + enc_oracle(pid, res, driver, "DLV"),
     "assumptions": ["frame_size_field = count_bits/8; that this is the emitted byte length is property C08"],
